@@ -74,8 +74,9 @@ class RF24:
         self._reg_write(0x03, (length - 2) if 3 <= length <= 5 else 0)
 
     def open_tx_pipe(self, addr):
-        self._reg_write_bytes(0x0A, addr)
         self._reg_write_bytes(0x10, addr)
+        # the ACK only matches if pipe 0 holds the whole resulting TX address
+        self._reg_write_bytes(0x0A, self._reg_read_bytes(0x10))
 
     def close_rx_pipe(self, pipe_num):
         if pipe_num < 0 or pipe_num > 5:
